@@ -8,7 +8,7 @@ from l4sa.core import TRANSPARENT_CALLS
 
 CLAIMED = True
 TECHNIQUE = "static analysis over type-checked MIR: derive-shape detection of deny_unknown_fields (no __ignore variant + unknown_field calls), default-value provenance, registry cross-check (Deserialize impls vs inserted kinds vs default kinds), kind-tagged section shape, loop-exit analysis of the lossy pipelines, guarded-table extraction of the extension->format->parser tables, field-to-field provenance of RawConfig::{root,loggers}, panic-site inventory of the loading cone"
-LEVEL_TEXT = """Static decision of schema/registry/pipeline clauses (agreement of the three formats with one another and with the programmatic configuration rests on serde and the format crates and is NOT claimed): (K1) the derived Deserialize of the 14 listed config structs denies unknown fields (no __ignore field variant, unknown_field reached from both field visitors); (K2) defaults: additive->true, root level->Debug, policy kind->"compound", encoder kind->"pattern", append->true in both file appender builders and only overridden when the config field is Some, console target->Stdout / tty_only->false, fixed-window base->0, on-start-up min_size->1; (K3) every impl of config::Deserialize is inserted exactly once in Deserializers::default() under its documented kind for the matching trait, the default kinds are registered, and an unregistered kind yields Err; (K4) the kind-tagged sections remove "kind" (and "filters") and pass the remainder on, a missing kind is an error for appender/filter/trigger/roller and the default for policy/encoder; (K5) appenders_lossy's loops only exit by exhaustion, push every error, and a failed filter does not drop its appender; file loading uses build_lossy and handles both error lists; create_raw_config fails on any error and uses strict build; (K6) yaml|yml->Yaml, json->Json, toml->Toml and each variant parses with its crate's from_str; (K7) RawConfig::{root,loggers} map level->level, appenders->appenders, additive->additive, map key->name, each setter applied unconditionally before build (never skipped for some documents); (K8) no un-discharged panic site in the loading cone (inherits the time trigger's known finding D5, since TimeTrigger::new runs at load time). (K11) the refresh_rate visitor implements visit_str only; any other visit_* is a plain hand-over of its argument to it. (K5, cont.) the strict loader tests the appender error list as returned (no &mut use before is_empty); (K12) retention of the lossy build (C13.V2); (K13a-d) size/time/on-start-up trigger and roller window reach their components as configured; (K14) the type-erasing wrapper passes a section to deserialize_into untouched; (K2, cont.) an optional setter's result is the builder that is built."""
+LEVEL_TEXT = """Static decision of schema/registry/pipeline clauses (agreement of the three formats with one another and with the programmatic configuration rests on serde and the format crates and is NOT claimed): (K1) the derived Deserialize of the 14 listed config structs denies unknown fields (no __ignore field variant, unknown_field reached from both field visitors); (K2) defaults: additive->true, root level->Debug, policy kind->"compound", encoder kind->"pattern", append->true in both file appender builders and only overridden when the config field is Some, console target->Stdout / tty_only->false, fixed-window base->0, on-start-up min_size->1; (K3) every impl of config::Deserialize is inserted exactly once in Deserializers::default() under its documented kind for the matching trait, the default kinds are registered, and an unregistered kind yields Err; (K4) the kind-tagged sections remove "kind" (and "filters") and pass the remainder on, a missing kind is an error for appender/filter/trigger/roller and the default for policy/encoder; (K5) appenders_lossy's loops only exit by exhaustion, push every error, and a failed filter does not drop its appender; file loading uses build_lossy and handles both error lists; create_raw_config fails on any error and uses strict build; (K6) yaml|yml->Yaml, json->Json, toml->Toml and each variant parses with its crate's from_str; (K7) RawConfig::{root,loggers} map level->level, appenders->appenders, additive->additive, map key->name, each setter applied unconditionally before build (never skipped for some documents); (K8) no un-discharged panic site in the loading cone (inherits the time trigger's known finding D5, since TimeTrigger::new runs at load time). (K11) the refresh_rate visitor implements visit_str only; any other visit_* is a plain hand-over of its argument to it. (K5, cont.) the strict loader tests the appender error list as returned (no &mut use before is_empty); (K12) retention of the lossy build (C13.V2); (K13a-d) size/time/on-start-up trigger and roller window reach their components as configured; (K14) the type-erasing wrapper passes a section to deserialize_into untouched; (K2, cont.) an optional setter's result is the builder that is built. (K15) accessor and setter fidelity of the runtime configuration types, including: a list-valued setter only pushes/extends (no dedup, sort, retain)."""
 LEVEL_NOTE = "Trusted: rustc MIR/callee resolution; serde derive semantics for the generated shapes; serde_yaml/serde_json/toml; typemap. cfg-disabled formats report a FormatError and are checked as such."
 EXPLANATION = """Decided: K1 deny-unknown shapes (14 structs), K2 defaults, K3 registry, K4 kind-tagged sections, K5 lossy/strict pipelines, K6 format tables, K7 field mapping, K8 loading does not panic (D5 sites reported as known findings under C16). Undecided: cross-format equivalence and equivalence with the programmatic configuration."""
 DECIDED = ["K1", "K2", "K3", "K4", "K5", "K6", "K7", "K8", "K5b a fresh filter list per appender", "K9 keys a document leaves out stand for the documented defaults (root level debug, additive true, empty lists)"]
@@ -491,6 +491,8 @@ def run_cfg(ctx, p, cfg):
 
     rule_raw_to_runtime(ctx, p, cfg, "K7")
     rule_section_passed_whole(ctx, p, cfg, "K14")
+    from rules import accessors
+    accessors.rule_fidelity(ctx, p, cfg, "K15")   # "agrees with the programmatic configuration": the builder methods the file path goes through (the plural setters) keep what they are given
     from rules import c13
     c13.rule_retention(ctx, p, cfg, "K12")   # what the lossy loader keeps of a partly broken document (C13.V2 re-evaluated)
     if "size_trigger" in feats:
